@@ -362,11 +362,12 @@ def iterable_validated(an, fn, expr, node):
     return True
 
 
-def fast_path_guard(an, fn, node, data_expr):
+def fast_path_guard(an, fn, node, data_expr, avoid=None):
     """Is node dominated by `isinstance(X, <same proxy class>)` and an identity test between X's
-    field and the receiver's, where the data handed on is X (or comes from iterating X)?"""
+    field and the receiver's, where the data handed on is X (or comes from iterating X)?  With *avoid* (the nodes that
+    re-define the data variable) only the paths on which the original value is still live are considered."""
     cls = fn.cls
-    guards = dominating_guards(an, fn, node)
+    guards = dominating_guards(an, fn, node, avoid)
     xs = set()
     for t, truth in guards:
         e = t.ast
@@ -399,6 +400,8 @@ def fast_path_guard(an, fn, node, data_expr):
     for kind, payload in value_sources(fn, data_expr, node):
         if kind == "param" and payload in good:
             continue
+        if avoid and kind != "param":
+            continue        # the re-definitions are judged on their own; here only the parameter's own arrival counts
         if kind == "expr" and isinstance(payload, ast.Name) and payload.id in good:
             continue
         if kind == "expr" and isinstance(payload, (ast.List, ast.Tuple, ast.Dict)) and not getattr(payload, "elts", None) \
@@ -495,12 +498,20 @@ def arg_validated(an, fn, expr, node, form, depth=0, use_node=None):
                 ok, why = True, "component %d of self._validate(...)" % index
             elif d.kind in ("param", "for", "with"):
                 ok, why = guarded(expr)
+                if not ok and d.kind == "param":
+                    # `if not fast: x = validated(x)` ... use(x): the parameter itself arrives only along the fast path
+                    redefs = {m for m in an.cfg(fn).nodes if any(dd.name == expr.id for dd in rd.defs_at.get(m, []))}
+                    if redefs:
+                        ok, why = fast_path_guard(an, fn, use_node, expr, avoid=redefs)
             else:
                 ok, why = False, "%s comes from %s" % (expr.id, d.kind)
             if not ok:
                 return False, why
             whys.append(why)
         return True, "; ".join(sorted(set(whys)))
+    if want_iter and isinstance(expr, ast.Call) and isinstance(expr.func, ast.Name) and expr.func.id in ("list", "tuple", "iter") \
+            and len(expr.args) == 1 and not expr.keywords:
+        return arg_validated(an, fn, expr.args[0], node, "iter", depth + 1, use_node)
     if isinstance(expr, ast.BoolOp) and isinstance(expr.op, ast.Or):
         for v in expr.values:
             ok, why = arg_validated(an, fn, v, node, form, depth + 1, use_node)
